@@ -327,10 +327,11 @@ Section Ext.
     = agent_loop tn' tns' rd rd_nonempty modifier visible checker md fuel script t s.
   Proof.
     intros md. induction fuel as [|fuel IH]; intros script t s; [reflexivity|].
-    destruct t as [[input| |]|m|o]; simpl; try reflexivity.
+    destruct t as [[input| |]|m|o|]; simpl; try reflexivity.
     - f_equal. destruct script as [|[|content calls chunks] script']; try reflexivity.
-      destruct (delivered md content calls chunks); [|reflexivity]. f_equal.
-      destruct (checker _); [apply IH|reflexivity].
+      destruct (delivered md content calls chunks).
+      + f_equal. destruct (checker _); [apply IH|reflexivity].
+      + destruct (checker _); [apply IH|reflexivity].
     - f_equal.
       assert (Ho : tools_out tn tns md (m_calls m) = tools_out tn' tns' md (m_calls m)).
       { unfold tools_out. destruct md; [rewrite Htn|rewrite Htns]; reflexivity. }
